@@ -66,6 +66,60 @@ def build_harness(kind):
         lock.close()
 
 
+# ---------------------------------------------------------------- coverage-guided input discovery (libFuzzer)
+FUZZ = os.path.join(ROOT, "fuzz")
+
+
+def src_hash():
+    h = hashlib.sha256()
+    for dp, _, fns in sorted(os.walk(os.path.join(REPO, "src"))):
+        for fn in sorted(fns):
+            if fn.endswith(".rs"):
+                h.update(fn.encode()); h.update(open(os.path.join(dp, fn), "rb").read())
+    h.update(open(os.path.join(REPO, "Cargo.toml"), "rb").read())
+    for fn in sorted(os.listdir(os.path.join(FUZZ, "fuzz_targets"))):
+        h.update(open(os.path.join(FUZZ, "fuzz_targets", fn), "rb").read())
+    return h.hexdigest()[:20]
+
+
+def discover(target, seconds, seed, max_len=48):
+    """Runs the libFuzzer target `target` of fuzz/ against /repo's working tree for `seconds` and returns the corpus directory.
+    The fuzzer is an input generator only (nothing it reports is a verdict).  The corpus is a function of (crate sources, target,
+    seed, budget) up to scheduling noise and is reused while those are unchanged.  Any failure here is a ToolError."""
+    key = f"{target}-{src_hash()}-{seed}-{seconds}"
+    d = os.path.join(WORK, "fuzz", key)
+    corpus = os.path.join(d, "corpus")
+    if os.path.exists(os.path.join(d, "done")):
+        log(f"[discover] {target}: corpus of the identical sources reused ({len(os.listdir(corpus))} inputs)")
+        return corpus
+    os.makedirs(WORK, exist_ok=True)
+    lock = open(os.path.join(WORK, ".build-fuzz.lock"), "w")
+    fcntl.flock(lock, fcntl.LOCK_EX)
+    try:
+        shutil.rmtree(d, ignore_errors=True)
+        os.makedirs(corpus)
+        env = {"CARGO_NET_OFFLINE": "true"}
+        t0 = time.time()
+        rc, out = sh(["cargo", "+nightly", "fuzz", "build", "--fuzz-dir", FUZZ, target], 1800, env=env, cwd=FUZZ)
+        if rc != 0:
+            raise ToolError(f"fuzz target {target} does not build: " + "\n".join(l for l in out.splitlines() if l.startswith("error") or "-->" in l)[:2000])
+        rc, out = sh(["cargo", "+nightly", "fuzz", "run", "--fuzz-dir", FUZZ, target, corpus, "--", f"-max_total_time={seconds}", f"-max_len={max_len}",
+                      "-use_value_profile=1", f"-seed={seed}", "-print_final_stats=1", f"-artifact_prefix={d}/"], seconds + 600, env=env, cwd=FUZZ)
+        m = re.search(r"stat::number_of_executed_units:\s+(\d+)", out)
+        if rc != 0 or not m:
+            raise ToolError(f"fuzz target {target} did not run to its time limit (rc={rc}): {out[-1500:]}")
+        # inputs the fuzzer wrote as crash / timeout artifacts are inputs like any other
+        for fn in os.listdir(d):
+            if fn.startswith(("crash-", "timeout-", "oom-", "slow-unit-")):
+                shutil.copy(os.path.join(d, fn), os.path.join(corpus, fn))
+        open(os.path.join(d, "done"), "w").write(m.group(1))
+        log(f"[discover] {target}: {m.group(1)} executions, {len(os.listdir(corpus))} inputs kept, {time.time()-t0:.1f}s")
+        return corpus
+    finally:
+        fcntl.flock(lock, fcntl.LOCK_UN)
+        lock.close()
+
+
 def drive(binary, scenario, seed, tier, out, extra=(), timeout=3600):
     cmd = [binary, scenario, "--seed", str(seed), "--tier", tier, "--out", out, *extra]
     t0 = time.time()
